@@ -548,6 +548,13 @@ def directed_cases(ctx, orc, hx):
                  "(get_data compresses the dense Jacobian with mju_dense2sparse, which drops the numerically zero first entry, and writes the values "
                  "into MjData.ten_J while the pattern ten_J_rownnz/rowadr/colind lives in the model and is not changed)" % (t["ten_J_orig"], t["ten_J_roundtrip"]),
                  {"xml": t["xml"], "result": t})
+    z = r["zero-jacobian-rows"]
+    orc.n += 1
+    if z["orig_nefc"] != z["roundtrip_nefc"]:
+        orc.fail("c44:putget:zero-jacobian-rows-dropped",
+                 "a weld on a body that can only translate: MjData has nefc = %d (%d rows with an all-zero Jacobian: the rotational rows of the weld), "
+                 "after put_data/get_data nefc = %d (get_data takes the rows with a non-zero Jacobian as the active ones)"
+                 % (z["orig_nefc"], z["orig_zero_rows"], z["roundtrip_nefc"]), {"xml": z["xml"], "result": z})
 
 
 def ask_json(orc, hx, l, rp, timeout=None):
@@ -591,6 +598,10 @@ def extra_ops(ctx, orc, hx, mi, kind, desc, quick):
             elif f == "contact":
                 key = "c44:putget:contact"
                 what = "contacts differ after put_data/get_data: " + str(d)
+            elif f in ("efc", "nefc") and "all-zero Jacobian" in str(r["fields"].get("efc", "")) and not str(r["fields"]["efc"]).endswith("(0 original rows have an all-zero Jacobian)"):
+                key = "c44:putget:zero-jacobian-rows-dropped"
+                what = ("get_data takes the constraint rows with a non-zero Jacobian as the active ones: rows of the original MjData whose Jacobian "
+                        "is all zero (e.g. the rotational rows of a weld on a body without rotational degrees of freedom) are lost: " + str(r["fields"]["efc"]))
             elif f == "efc":
                 key = "c44:putget:efc"
                 what = "constraint rows differ after put_data/get_data: " + str(d)
